@@ -273,7 +273,7 @@ def doc_block(style: str, desc: str, params: list[tuple[str, str, str]], result:
 class PkgGen:
     def __init__(self, rng: random.Random, *, kw_rate=0.05, style="plaintext", docs=0.5, reexports=True,
                  test_dirs=False, private_rate=0.2, infer_returns=0.15, n_modules=(2, 4), root_name="pkg",
-                 cross_refs=True, doc_types="none", unique_top_names=True):
+                 cross_refs=True, doc_types="none", unique_top_names=True, ties=0.0):
         self.r = rng
         self.names = Names(rng, kw_rate)
         self.style = style
@@ -289,6 +289,9 @@ class PkgGen:
         # scope of most oracles: no two modules define the same top-level name (same-named declarations in
         # unrelated modules confuse the tool's suffix-matching of re-exports and aliases: known findings K18-*)
         self.unique_top_names = unique_top_names
+        # rate of constructs whose treatment depends on the iteration order of a Python set inside the tool
+        # (a nested class named like a top-level class of its module that is then used as a base class or type)
+        self.ties = ties
         self.global_used: set = set()
         self.counter = 0
 
@@ -385,7 +388,8 @@ class PkgGen:
         r = self.r
         lits = [("1", "int"), ("2.5", "float"), ('"s"', "str"), ("True", "bool"), ("None", "None")]
         rets = []
-        shape = r.choice(["single", "if", "try", "loop", "tuple", "cond", "cond", "with", "match", "uninferable"])
+        shape = r.choice(["single", "if", "try", "loop", "tuple", "cond", "cond", "with", "match", "uninferable"]
+                         + (["two_tuples"] * 3 if self.ties else []))
         pick = lambda: r.choice(lits)
         if shape == "single":
             rets = [[pick()]]
@@ -426,6 +430,10 @@ class PkgGen:
             else:                 # call in the else-branch
                 rets = [[a]]
                 body = [f"return {a[0]} if len(str(0)) > 1 else len(str(0))"]
+        elif shape == "two_tuples":       # two tuple returns of equal length: equal sort keys in the analyser
+            a, b, c, d = pick(), pick(), pick(), pick()
+            rets = [[a, b], [c, d]]
+            body = ["if len(str(0)) > 1:", f"    return {a[0]}, {b[0]}", f"return {c[0]}, {d[0]}"]
         elif shape == "uninferable":
             a = pick()
             k = r.randrange(3)
@@ -438,7 +446,7 @@ class PkgGen:
             body = ["if len(str(0)) > 1:", f"    return {a[0]}, {b[0]}", f"return {c[0]}"]
         return {"body": body, "rets": rets}
 
-    def class_(self, ag: AnnGen, name, qname, avail_bases, depth_left):
+    def class_(self, ag: AnnGen, name, qname, avail_bases, depth_left, shadow=()):
         r = self.r
         c = {"kind": "class", "name": name, "qname": qname, "bases": [], "attrs": [], "init": None, "inst_attrs": [],
              "methods": [], "classes": [], "doc": ""}
@@ -477,6 +485,8 @@ class PkgGen:
             c["methods"].append(m)
         if depth_left > 0 and r.random() < 0.3:
             nn = self.names.pick(CLASSES, used, self.private_rate, cls=True)
+            if shadow and r.random() < self.ties and shadow[-1][0] not in used:
+                nn = shadow[-1][0]
             c["classes"].append(self.class_(ag, nn, f"{qname}.{nn}", [], depth_left - 1))
         c["extras"] = {"setters": r.random() < 0.5, "overload": r.random() < 0.15, "subscript": r.random() < 0.4,
                        "seq_base": r.random() < 0.1 and not c["bases"]}
@@ -498,7 +508,7 @@ class PkgGen:
             cn = self.names.pick(CLASSES, used, self.private_rate, cls=True)
             ag = AnnGen(r, local + (avail if self.cross_refs else []))
             bases = [b for b in local + (avail if self.cross_refs else [])]
-            c = self.class_(ag, cn, f"{qn}.{cn}", bases, 1)
+            c = self.class_(ag, cn, f"{qn}.{cn}", bases, 1, shadow=local)
             m["classes"].append(c)
             local.append((cn, f"{qn}.{cn}"))
         if r.random() < 0.25:
